@@ -153,6 +153,9 @@ def counting_intersection(prog, rep):
                 rep.bad("C13.intersection", where, f"store {nshow(e.value)}", "stored count is not derived from both cells at the same index", e.where())
                 return
     if any_store:
+        from ._setops import result_from_receiver
+        if not result_from_receiver(rep, "C13.intersection", where, ps, "CountingBloomFilter"):
+            return
         rep.ok("C13.intersection", f"{where}: stored exactly where both cells are non-zero, full range")
     else:
         rep.bad("C13.intersection", where, "no store", "intersection never stores", f.where())
